@@ -801,8 +801,10 @@ func (c *CEnv) call(x *ast.CallExpr) CVal {
 		n := c.sub(map[string]CVal{id.Name: {S: bv, T: t}})
 		body := n.evalBool(arg(2))
 		return CVal{S: fmt.Sprintf("(forall ((%s %s)) %s)", bv, e.sortOf(t), body), T: boolT}
-	case "forallT", "existsT":
-		// forallT(x, Type, P): x ranges over all values of the Go type
+	case "forallT", "existsT", "forallU":
+		// forallT(x, Type, P): x ranges over all values of the Go type (allocated in the current state);
+		// forallU: the same without the allocation bound (also objects allocated later; for entry
+		// assumptions about container contents that are used after further allocations)
 		id, ok := arg(0).(*ast.Ident)
 		t := c.resolveType(arg(1))
 		if !ok || t == nil {
@@ -812,7 +814,11 @@ func (c *CEnv) call(x *ast.CallExpr) CVal {
 		n := c.sub(map[string]CVal{id.Name: {S: bv, T: t}})
 		body := n.evalBool(arg(2))
 		fact := e.typeFact(bv, t, c.st)
-		if name == "forallT" {
+		if name == "forallU" {
+			fact = strings.ReplaceAll(fact, fmt.Sprintf("(<= (i_ref %s) %s)", bv, c.st.alloc), "true")
+			fact = strings.ReplaceAll(fact, fmt.Sprintf("(<= %s %s)", bv, c.st.alloc), "true")
+		}
+		if name == "forallT" || name == "forallU" {
 			return CVal{S: fmt.Sprintf("(forall ((%s %s)) (=> %s %s))", bv, e.sortOf(t), fact, body), T: boolT}
 		}
 		return CVal{S: fmt.Sprintf("(exists ((%s %s)) (and %s %s))", bv, e.sortOf(t), fact, body), T: boolT}
